@@ -18,6 +18,12 @@ def demo_place(wt, demo):
     src = open(demo).read()
     pkg = re.search(r'^package\s+(\w+)', src, re.M).group(1)
     legacy = '"github.com/evanphx/json-patch"' in src and '"github.com/evanphx/json-patch/v5"' not in src
+    tests = re.findall(r'^func (Test\w+)\(', src, re.M)
+    runpat = "'^(" + '|'.join(tests) + ")$'" if tests else '.'
+    if pkg == 'main' and demo.endswith('_test.go'):
+        d = os.path.join(wt, 'cmd/json-patch' if legacy else 'v5/cmd/json-patch')
+        shutil.copy(demo, os.path.join(d, 'zz_seed_demo_test.go'))
+        return d, 'go test -vet=off -count=1 -run ' + runpat + ' .', legacy
     if pkg == 'json':
         d = os.path.join(wt, 'v5/internal/json')
     elif pkg == 'main' and not demo.endswith('_test.go'):
@@ -32,7 +38,7 @@ def demo_place(wt, demo):
         d = os.path.join(wt, 'v5')
     name = 'zz_seed_demo_test.go'
     shutil.copy(demo, os.path.join(d, name))
-    return d, 'go test -vet=off -count=1 -run . ' + ('-race ' if 'race' in os.path.basename(demo) or '// needs -race' in src else '') + '.', legacy
+    return d, 'go test -vet=off -count=1 -run ' + runpat + ' ' + ('-race ' if 'race' in os.path.basename(demo) or '// needs -race' in src else '') + '.', legacy
 
 def main():
     ap = argparse.ArgumentParser()
